@@ -90,3 +90,13 @@ int printf(const char *fmt, ...) { return nondet_int(); }
 int puts(const char *s) { return nondet_int(); }
 int fputs(const char *s, FILE *f) { return nondet_int(); }
 void perror(const char *s) { }
+
+size_t strcspn(const char *s, const char *reject)
+{
+	size_t i, k;
+	for (i = 0; s[i]; i++)
+		for (k = 0; reject[k]; k++)
+			if (s[i] == reject[k])
+				return i;
+	return i;
+}
